@@ -652,8 +652,8 @@ theorem plan_unsat_nil (target : Vtx) (reaching : List Vtx) (rd : Bool) (l : Lis
     rw [List.foldl_cons]
     apply ih (fun cp' h' => hl cp' (List.mem_cons_of_mem _ h'))
     rw [Termination.planOne_unsat]
-    have : (cp.2.any fun v => decide (v ∈ reaching)) = false := by
-      rw [List.any_eq_false]
+    have : (cp.2.filter fun v => decide (v ∈ reaching)) = [] := by
+      rw [List.filter_eq_nil_iff]
       intro v hv
       simpa using hl cp (by simp) v hv
     simp [this, h]
